@@ -5,6 +5,8 @@
 
 #include <etl/_config/all.hpp>
 
+#include <etl/_bit/bit_cast.hpp>
+#include <etl/_cstdint/uint_t.hpp>
 #include <etl/_type_traits/is_constant_evaluated.hpp>
 
 namespace etl {
@@ -14,7 +16,18 @@ namespace detail {
 template <typename T>
 [[nodiscard]] constexpr auto signbit_fallback(T arg) noexcept -> bool
 {
-    return arg == T(-0.0) || arg < T(0);
+    // the sign bit itself: +0.0 has none, -0.0 and negative NaNs have one
+    if constexpr (sizeof(T) == sizeof(etl::uint32_t)) {
+        return (etl::bit_cast<etl::uint32_t>(arg) >> 31U) != 0U;
+    } else if constexpr (sizeof(T) == sizeof(etl::uint64_t)) {
+        return (etl::bit_cast<etl::uint64_t>(arg) >> 63U) != 0U;
+    } else {
+#if __has_builtin(__builtin_signbit) and not defined(TETL_COMPILER_CLANG)
+        return __builtin_signbit(arg);
+#else
+        return arg < T(0);
+#endif
+    }
 }
 
 } // namespace detail
